@@ -343,6 +343,13 @@ func (ap *AP) T(axes ...int) (retVal AP, a []int, err error) {
 		}
 		strides[0], strides[1] = 1, 1
 		shape[0], shape[1] = currentShape[1], currentShape[0]
+		// the axis that holds the elements keeps its stride, which is not 1 for a view of a column
+		// or of every k-th element; the stride of the axis of extent 1 is never used
+		if shape[0] > 1 {
+			strides[0] = currentStride[1]
+		} else {
+			strides[1] = currentStride[0]
+		}
 	default:
 		copy(shape, currentShape)
 		copy(strides, currentStride)
